@@ -1,4 +1,5 @@
 import L21.Proofs.Gds
+import L21.Proofs.GdsFuel
 /-
 C10 — The GDSII reader never crashes or hangs on any input bytes.
 
@@ -130,6 +131,17 @@ theorem c10_total (bs : Bytes) : (∃ l, dec bs = .ok l) ∨ dec bs = .err := by
   cases h : dec bs with
   | ok l => exact Or.inl ⟨l, rfl⟩
   | err => exact Or.inr rfl
+
+/-- **parser-level budgets are never exhausted.**  The three record-level loops (`parse_lib`,
+    `parse_struct`, the per-element loops) are started with `remaining records + 1`; with any larger
+    budget each gives the same answer, so no error of the model is caused by the budget and every
+    iteration consumes at least one record (linear work in the number of records). -/
+theorem c10_parser_fuel (n : Nat) (rs : List Rec) :
+    (∀ v d lb, parseLibBody v d (rs.length + 1 + n) lb rs = parseLibBody v d (rs.length + 1) lb rs) ∧
+    (∀ acc, parseElems (rs.length + 1 + n) acc rs = parseElems (rs.length + 1) acc rs) ∧
+    (∀ k b, parseElem k (rs.length + 1 + n) b rs = parseElem k (rs.length + 1) b rs) :=
+  ⟨fun v d lb => parseLibBody_fuel_any v d lb rs n, fun acc => parseElems_fuel_any acc rs n,
+   fun k b => parseElem_fuel_any k b rs n⟩
 
 /-! non-vacuity -/
 example : dec [0,6,0,2,0,3,0,28,1,2,0,0,0,0,0,0,0,0,0,0,0,0,0,0,0,0,0,0,0,0,0,0,0,0,0,6,2,6,97,0,0,20,3,5,62,65,137,55,75,198,167,240,57,68,184,47,160,155,90,84,0,4,4,0]
